@@ -252,6 +252,11 @@ func crashOne(t *testing.T, tape *verifsim.Tape, tier string, keepLog bool, k in
 			res.Info["redo_skipped_reference_op_failed"]++
 			return
 		}
+		// "create X FROM X" reads what it writes and is not idempotent (a license given in the
+		// request is appended to those of the base): when the process dies after the new
+		// manifest is in place, repeating the request legitimately applies it to its own
+		// result. The comparison with the uninterrupted run is meaningless there.
+		selfFrom := op.kind == "create-from" && strings.EqualFold(relOf(op.from), relOf(op.name))
 		var redo apiResult
 		stop = crashExec(sim, "redo", func() {
 			redo = w.doOp(ctx, op)
@@ -285,7 +290,9 @@ func crashOne(t *testing.T, tape *verifsim.Tape, tier string, keepLog bool, k in
 			w.violate(prop, "store-audit", sig("after-redo-"+p.kind), "after the process died during %q (%s), restart and repeating the operation: %s", op, where, p.detail)
 			return
 		}
-		if kind, detail := snapshotDiff(ref.final, final); kind != "" {
+		if selfFrom {
+			res.Info["comparison_skipped_self_from"]++
+		} else if kind, detail := snapshotDiff(ref.final, final); kind != "" {
 			w.violate(prop, "redo", sig("redo-diverges:"+kind), "after the process died during %q (%s), restart, repeating the operation and another restart, the store is not what the uninterrupted run leaves: %s\nuninterrupted run: %v\nmodels after the uninterrupted run: %v\nmodels here: %v", op, where, detail, ref.describe, existingNames(ref.final), existingNames(final))
 			return
 		}
